@@ -304,6 +304,15 @@ func setScalar(s *secp256k1.Scalar, v *big.Int) {
 
 func be32(v *big.Int) []byte { return v.FillBytes(make([]byte, 32)) }
 
+// mustBeBelow stops the harness (exit 2: inconclusive, never a verdict) when one of ITS OWN setup values is out of
+// range -- a generator slip must not be able to look like a disagreement of the library.
+func mustBeBelow(v, mod *big.Int, what string) {
+	if v.Sign() < 0 || v.Cmp(mod) >= 0 {
+		fmt.Fprintf(os.Stderr, "harness: generator bug: %s value %x is not below the modulus\n", what, v)
+		os.Exit(2)
+	}
+}
+
 func (m *M) randBig(mod *big.Int) *big.Int {
 	b := make([]byte, 40)
 	m.rng.Read(b)
